@@ -12,6 +12,9 @@ cache layers (plus the invocation's own writes for `findw`).
   findl <id4> <prefix> <opts>               -> invalid:<i> | fault | ok:[item,...]   (live model store, now)
   findh <h> <id4> <prefix> <opts>           -> the same on the trie of height h
   findw <h|live> <id4> <prefix> <opts> <key> <val|del> ...  -> the same after the invocation's own writes
+  dfindh / dfindw / dget                    -> as findh / findw / get: the harness created the historic context
+                                               earlier and evaluates it after later blocks were stored; the model's
+                                               answer is the view of height h regardless (historic_view_stable)
   sroot <h>                                 -> <index> <root hex> | none     GetStateRoot(h) of the model of
                                                stateroot.Module's records (Model/StateCommit/Roots.lean), which
                                                receives every batch as AddMPTBatch+UpdateCurrentLocal
@@ -109,7 +112,13 @@ def liveOf (t : Node) : Store.Store :=
   .cached (Store.Layer.fresh false)
     (.memB [] ((entries t).map fun e => ((0x70 : UInt8) :: fromNibbles e.1, some e.2)))
 
-def step (s : St) (ws : List String) : St × String :=
+def step (s : St) (ws0 : List String) : St × String :=
+  -- a deferred evaluation has the same specified answer as an immediate one
+  let ws := match ws0 with
+    | "dfindh" :: r => "findh" :: r
+    | "dfindw" :: r => "findw" :: r
+    | "dget" :: r => "get" :: r
+    | l => l
   match ws with
   | ["case", k] => ({}, s!"case {k}")
   | "batch" :: h :: items =>
